@@ -184,6 +184,14 @@ def run_element(case):
         lab.run()
         classes = {case["elem"]["type"]}
         el.check_end(classes)
+        if el.type in ("port", "port0"):
+            # "discarded by that element's documented rule": the tail-drop rule itself is C09's reference server
+            from . import c09
+            sp = case["elem"]
+            rate = 0 if el.type == "port0" else sp.get("rate", 8192)
+            c09.run_port({"exact": rate in netlab.EXACT_RATES or rate == 0, "rate": rate, "qlimit": sp.get("qlimit"),
+                          "limit_bytes": sp.get("bytes", False), "eid": "e0", "wl": case["wl"]})
+            classes.add("tail-drop rule checked")
         bursts = len({w[0] for w in case["wl"]}) < len(case["wl"])
         nt = len(flows) >= 2 and bursts and ("queued or delayed" in classes or "counted drop" in classes or "wire loss" in classes
                                              or "no route" in classes or not el.single_out)
